@@ -7,13 +7,15 @@ import Std.Data.HashSet
 
   (anything after `##` on a line is a hint for the harness and is ignored here).  After each line the model runs its
   internal steps (dispatcher, workers taking and reporting, released tasks finishing, the sequential submitter's
-  pending sends) to quiescence with `TQ.next`/`TQ.enabled`, over ALL interleavings (visited set), and prints the
+  pending sends) to quiescence with the threaded model `TQW.tnext` (worker threads, recovery and handler steps; the
+  shared part by `TQ.next`/`TQ.enabled`), over ALL interleavings (visited set), and prints the
   observable of the quiescent states: tasks started, finished, recovery-handler calls, number of `Submit` calls that
-  have returned, state of `Shutdown`.  If the quiescent observable depends on the schedule the line prints
+  have returned, state of `Shutdown`.  For a one-worker queue `st=`/`fin=` are printed IN ORDER (start order, finish
+  order), otherwise sorted.  If the quiescent observable depends on the schedule the line prints
   `nondet …` (the check does not use such scripts). -/
-open Proto TQ
+open Proto TQ TQW
 
-abbrev Node := S × List Bool   -- model state, pending sends of the (single, sequential) submitter
+abbrev Node := TS × List Bool   -- model state, pending sends of the (single, sequential) submitter
 
 structure D where
   cfg : Cfg := { workers := 1, depth := -1, inCap := 1 }
@@ -21,28 +23,61 @@ structure D where
   nodes : List Node := []
   released : List Nat := []
 
-/-- successors by internal steps: everything but `shutdown`; `submit` only for the submitter's next pending send;
-    `finish t` only for released tasks.
-    Reduction: if a released task t is running, only `finish t` is explored.  This loses no quiescent state: `finish t`
-    stays enabled until it fires (nothing else removes t from `running`), so it occurs on every path to a quiescent
-    state, and it can be moved to the front of the path — every other rule that is enabled before `finish t` is enabled
-    after it (`take` reads `running.length + reporting`, which `finish` keeps; `report` reads `0 < reporting`, which
-    `finish` only makes true) and the two results commute, up to the order of the `finished`/`recovered` lists, which
-    the observable sorts. -/
+def wkey : W → Nat
+  | .idle => 0
+  | .reporting => 1
+  | .dead => 2
+  | .running t k => 3 + 8 * (t * 64 + k)
+  | .unwinding t => 4 + 8 * t
+  | .handling t => 5 + 8 * t
+  | .unwindingH t => 6 + 8 * t
+
+def insertW (x : W) : List W → List W
+  | [] => [x]
+  | y :: ys => if wkey x ≤ wkey y then x :: y :: ys else y :: insertW x ys
+
+/-- worker threads are interchangeable (no observable depends on which thread does what), so states are kept with the
+    thread list sorted: a symmetry reduction -/
+def canon (s : TS) : TS := { s with ws := s.ws.foldr insertW [] }
+
+def idxOf (ws : List W) (p : W → Bool) : Option Nat :=
+  (List.range ws.length).find? fun i => match ws[i]? with | some w => p w | none => false
+
+/-- successors by internal steps of the threaded model: every rule but `shutdown`; `submit` only for the submitter's
+    next pending send; the end of a task (`ret`/`panic`) only for released tasks.
+    Reductions, none of which loses a quiescent state:
+    * a thread running a released task, unwinding, or in the handler: only that thread's step is explored.  Such a step
+      stays enabled until it fires, touches only that thread (and `finished`/`hcalls`), and every rule enabled before it
+      is enabled after it with commuting results (the end of a task only adds a `ready` token later), so it can be moved
+      to the front of any path to a quiescent state.  Of the two outcomes of a handler call only `handlerRet` is explored:
+      `handlerPanic` followed by `guardRecover` reaches the same state.
+    * `take` and `report` only by the first idle / first reporting thread, and thread lists are sorted (`canon`). -/
 def succs (c : Cfg) (released : List Nat) (n : Node) : List Node :=
   let (s, pend) := n
-  match s.running.find? (fun t => released.contains t) with
-  | some t => ((next c s (.finish t)).map (·, pend)).toList
+  let fire (l : TLabel) : List Node := ((tnext code c s l).map fun s' => (canon s', pend)).toList
+  let urgent := idxOf s.ws fun w => match w with
+    | .running t 0 => released.contains t
+    | .unwinding _ | .handling _ | .unwindingH _ => true
+    | _ => false
+  match urgent with
+  | some i =>
+    match s.ws[i]? with
+    | some (.running _ _) => fire (.ret i) ++ fire (.panic i)
+    | some (.unwinding _) => fire (.recoverH i) ++ fire (.recoverN i)
+    | some (.handling _) => fire (.handlerRet i)
+    | _ => fire (.guardRecover i)
   | none =>
-  let inner := (enabled c s).filterMap fun l =>
+  let inner := (enabled (noH c) s.q).flatMap fun l =>
     match l with
-    | .submit _ => none
-    | .shutdown => none
-    | .finish _ => none
-    | _ => (next c s l).map (·, pend)
+    | .submit _ => []
+    | .shutdown => []
+    | _ => fire (.q l)     -- worker labels of `TQ` are refused by `tnext`
+  let takes := match idxOf s.ws (· == .idle) with | some i => fire (.take i) | none => []
+  let reports := match idxOf s.ws (· == .reporting) with | some i => fire (.report i) | none => []
+  let inner := inner ++ takes ++ reports
   match pend with
-  | p :: rest => match next c s (.submit p) with
-    | some s' => (s', rest) :: inner
+  | p :: rest => match tnext code c s (.q (.submit p)) with
+    | some s' => (canon s', rest) :: inner
     | none => inner
   | [] => inner
 
@@ -70,9 +105,15 @@ def sortNat (l : List Nat) : List Nat := l.foldr insertSorted []
 def showList (l : List Nat) : String :=
   if l.isEmpty then "-" else ",".intercalate ((sortNat l).map toString)
 
-def obsOf (n : Node) : String :=
+def showSeq (l : List Nat) : String :=
+  if l.isEmpty then "-" else ",".intercalate (l.map toString)
+
+def obsOf (c : Cfg) (n : Node) : String :=
   let s := n.1
-  s!"st={showList s.started} fin={showList s.finished} rec={showList s.recovered} sub={s.nextId} sd={s.shut}"
+  if c.workers == 1 then
+    s!"st={showSeq s.q.started} fin={showSeq s.q.finished.reverse} rec={showList s.hcalls} sub={s.q.nextId} sd={s.q.shut}"
+  else
+    s!"st={showList s.q.started} fin={showList s.q.finished} rec={showList s.hcalls} sub={s.q.nextId} sd={s.q.shut}"
 
 def dedup (l : List String) : List String :=
   l.foldl (fun acc x => if acc.contains x then acc else acc ++ [x]) []
@@ -81,8 +122,8 @@ def insertSortedS (x : String) : List String → List String
   | [] => [x]
   | y :: ys => if x ≤ y then x :: y :: ys else y :: insertSortedS x ys
 
-def report (pre : String) (nodes : List Node) : String :=
-  match dedup (nodes.map obsOf) with
+def report (c : Cfg) (pre : String) (nodes : List Node) : String :=
+  match dedup (nodes.map (obsOf c)) with
   | [o] => pre ++ o
   | os => "nondet " ++ pre ++ " | ".intercalate (os.foldr insertSortedS [])
 
@@ -90,7 +131,7 @@ def report (pre : String) (nodes : List Node) : String :=
 def settle (d : D) (pre : String) (nodes : List Node) : D × String :=
   match explore d.cfg d.released nodes {} [] with
   | none => ({ d with nodes := nodes }, "too-big")
-  | some q => ({ d with nodes := q }, report pre q)
+  | some q => ({ d with nodes := q }, report d.cfg pre q)
 
 def parseIds (ws : List String) : Option (List Nat) := ws.mapM String.toNat?
 
@@ -100,10 +141,10 @@ def allB (l : List Node) (p : Node → Bool) : Bool := l.all p
 
 def doShut (d : D) : D × String :=
   -- Shutdown is only legal when no Submit is outstanding and it has not been called before
-  if allB d.nodes (fun n => n.2.isEmpty && n.1.shut == 0) then
-    let nodes := d.nodes.filterMap fun n => (next d.cfg n.1 .shutdown).map (·, n.2)
+  if allB d.nodes (fun n => n.2.isEmpty && n.1.q.shut == 0) then
+    let nodes := d.nodes.filterMap fun n => (tnext code d.cfg n.1 (.q .shutdown)).map (·, n.2)
     settle d "" nodes
-  else if allB d.nodes (fun n => !(n.2.isEmpty && n.1.shut == 0)) then
+  else if allB d.nodes (fun n => !(n.2.isEmpty && n.1.q.shut == 0)) then
     settle d "shut-refused " d.nodes
   else
     let (d', o) := settle d "" d.nodes
@@ -123,7 +164,8 @@ def step (d : D) (line : String) : D × String :=
     | some w, some dp, some ic, some m =>
       if w < 1 ∨ ic < 1 ∨ m > 3 then (d, "bad-op")
       else ({ cfg := { workers := w, depth := dp, inCap := ic, handler := (m == 0 || m == 3) }, live := true,
-              nodes := [({}, [])], released := [] }, "ok")
+              nodes := [(TQW.init { workers := w, depth := dp, inCap := ic, handler := (m == 0 || m == 3) }, [])],
+              released := [] }, "ok")
     | _, _, _, _ => (d, "bad-op")
   | ["sub", flags] =>
     if !d.live then (d, "bad-op") else
@@ -131,7 +173,7 @@ def step (d : D) (line : String) : D × String :=
     -- 'n' = the task returns; any other letter = it panics, the letter naming the panic value (string, error, runtime
     -- error, *errs.Error, typed nil, …): the model treats all panic values alike
     if fl.isEmpty ∨ !fl.all (fun ch => "npsrxezfw0v".toList.contains ch) then (d, "bad-op")
-    else if allB d.nodes (fun n => n.1.shut == 0) then
+    else if allB d.nodes (fun n => n.1.q.shut == 0) then
       settle d "" (d.nodes.map fun n => (n.1, n.2 ++ fl.map (· != 'n')))
     else settle d "sub-refused " d.nodes
   | "rel" :: ids =>
@@ -149,10 +191,10 @@ def step (d : D) (line : String) : D × String :=
   | ["end"] =>
     -- every task (also those not yet accepted) is released; when that has settled Shutdown is called (if it was not)
     if !d.live then (d, "bad-op") else
-    let total := d.nodes.foldl (fun m n => max m (n.1.nextId + n.2.length)) 0
+    let total := d.nodes.foldl (fun m n => max m (n.1.q.nextId + n.2.length)) 0
     let (d1, o1) := settle { d with released := List.range total } "" d.nodes
     if o1 == "too-big" then (d1, o1)
-    else if allB d1.nodes (fun n => n.2.isEmpty && n.1.shut == 0) then doShut d1
+    else if allB d1.nodes (fun n => n.2.isEmpty && n.1.q.shut == 0) then doShut d1
     else settle d1 "" d1.nodes
   | _ => (d, "bad-op")
 
